@@ -116,7 +116,7 @@ func (c05) Run(c *Ctx, csAny any) Outcome {
 		out.Viol = violf("C05:panic-escaped-check", "a panic escaped rapid.Check: %v", r.Obs.Escaped)
 		return out
 	}
-	if r.FirstBad < 0 || (r.Rep.Kind != "failed" && r.Rep.Kind != "panic") {
+	if r.FirstBad < 0 || (r.Rep.Kind != "failed" && r.Rep.Kind != "panic" && r.Rep.Kind != "flaky") {
 		out.Classes = append(out.Classes, "no-reported-failure")
 		return out
 	}
